@@ -10,6 +10,7 @@
 //!
 //! usage: inject <prim> <depth> <inner> [<post>]   enumerate: prefixes up to <depth> calls, <inner> = 1 | 2
 //!                                           injected calls, <post> = 0 | 1 calls after the preempted one
+//!        inject random <prim> <seed> <count> <maxdepth>   seeded random scenarios (deeper, more agents: `mutex5`)
 //!        inject replay <prim> <param> <key> one scenario (key as printed after `S:`)
 
 use async_lock::__verif::{record_atomics, set_preempt_hook, set_starvation_oracle, take_atomic_log};
@@ -192,6 +193,11 @@ struct Outcome {
 /// prefix calls, then `outer` with the inner calls `inner` (indices into the list of calls that
 /// are possible at that moment) injected before its k-th atomic operation
 fn scenario<P: Prim>(param: &str, prefix: &[(usize, String)], outer: (usize, &str), k: usize, inner: &[usize], post: Option<usize>) -> Outcome {
+    scenario_w::<P>(param, prefix, outer, k, inner, &post.into_iter().collect::<Vec<_>>(), false)
+}
+
+/// `wrap`: indices are taken modulo the number of possible calls (random mode); several post calls
+fn scenario_w<P: Prim>(param: &str, prefix: &[(usize, String)], outer: (usize, &str), k: usize, inner: &[usize], post: &[usize], wrap: bool) -> Outcome {
     record_atomics(true);
     let _ = take_atomic_log();
     let p = P::new(param);
@@ -221,10 +227,11 @@ fn scenario<P: Prim>(param: &str, prefix: &[(usize, String)], outer: (usize, &st
                             }
                         }
                     }
-                    if j >= all.len() {
+                    if all.is_empty() || (!wrap && j >= all.len()) {
                         oob2.set(true);
                         break;
                     }
+                    let j = j % all.len();
                     run2.call(all[j].0, all[j].1);
                 }
             }
@@ -233,17 +240,18 @@ fn scenario<P: Prim>(param: &str, prefix: &[(usize, String)], outer: (usize, &st
     }
     run.call(outer.0, outer.1);
     set_preempt_hook(None);
-    // one more complete call after the preempted one
-    if let Some(j) = post {
+    // more complete calls after the preempted one
+    for &j in post {
         let mut all: Vec<(usize, &'static str)> = Vec::new();
         for b in 0..P::agents() {
             for c in run.p.calls(b) {
                 all.push((b, c));
             }
         }
-        if j >= all.len() {
+        if all.is_empty() || (!wrap && j >= all.len()) {
             oob.set(true);
         } else if run.viol.borrow().is_none() {
+            let j = j % all.len();
             run.call(all[j].0, all[j].1);
         }
     }
@@ -257,8 +265,17 @@ fn scenario<P: Prim>(param: &str, prefix: &[(usize, String)], outer: (usize, &st
             }
         }
     };
+    // a probe's finding is recorded but does not end the scenario: the drain may find more
+    let mut probe_viol: Option<String> = None;
     if run.viol.borrow().is_none() {
-        flag(run.p.final_probe());
+        let v = run.p.final_probe();
+        // the probe's own operations are not part of the trace
+        let _ = take_atomic_log();
+        if let Some(v) = v {
+            let v = v.replace(' ', "_");
+            run.ev.borrow_mut().push(format!("V:{}", v));
+            probe_viol = Some(v);
+        }
     }
     // drain: poll whatever was woken, release one guard, repeat. Every wake-up must lead somewhere
     // (no lost wake-up), and the polls must come to an end (no busy waiting).
@@ -296,10 +313,14 @@ fn scenario<P: Prim>(param: &str, prefix: &[(usize, String)], outer: (usize, &st
         outer.1,
         k,
         inner.iter().map(|j| j.to_string()).collect::<Vec<_>>().join(","),
-        post.map(|j| j.to_string()).unwrap_or_default()
+        post.iter().map(|j| j.to_string()).collect::<Vec<_>>().join(",") + if wrap { "w" } else { "" }
     );
     let line = format!("{} {} {} | {} {}", P::name(), P::agents(), P::header_param(param), key, run.ev.borrow().join(" "));
-    let viol = run.viol.borrow().clone();
+    let viol = run.viol.borrow().clone().or(probe_viol);
+    if viol.is_some() {
+        // whatever is wrong (e.g. a reference count), do not let destructors act on it
+        std::mem::forget(run);
+    }
     Outcome { line, fired: fired.get(), oob: oob.get(), viol }
 }
 
@@ -404,6 +425,76 @@ fn run_all<P: Prim>(depth: usize, inner_n: usize, post_n: usize) {
     eprintln!("INJECT prim={} scenarios={} violations={}", P::name(), st.scenarios, st.violations);
 }
 
+struct Rng(u64);
+
+impl Rng {
+    fn next(&mut self) -> u64 {
+        // xorshift64*
+        self.0 ^= self.0 >> 12;
+        self.0 ^= self.0 << 25;
+        self.0 ^= self.0 >> 27;
+        self.0.wrapping_mul(0x2545F4914F6CDD1D)
+    }
+    fn below(&mut self, n: usize) -> usize {
+        (self.next() >> 33) as usize % n.max(1)
+    }
+}
+
+/// random scenarios: a random walk of up to `maxdepth` complete calls, a random call preempted at a
+/// random point by 1..=3 random calls, 0..=2 random calls afterwards; every choice from one PRNG
+fn run_random<P: Prim>(seed: u64, count: usize, maxdepth: usize) {
+    let stdout = std::io::stdout();
+    let mut out = std::io::BufWriter::with_capacity(1 << 20, stdout.lock());
+    let mut st = Stats { scenarios: 0, violations: 0 };
+    let mut rng = Rng(seed.wrapping_mul(0x9E3779B97F4A7C15) | 1);
+    let params = P::params();
+    for _ in 0..count {
+        let param = params[rng.below(params.len())].clone();
+        // the prefix is a random walk: replayed from scratch to learn the possible calls
+        let len = rng.below(maxdepth + 1);
+        let mut prefix: Vec<(usize, String)> = Vec::new();
+        for _ in 0..len {
+            let calls = calls_after_all::<P>(&param, &prefix);
+            if calls.is_empty() {
+                break;
+            }
+            let (a, c) = calls[rng.below(calls.len())];
+            prefix.push((a, c.to_string()));
+        }
+        let calls = calls_after_all::<P>(&param, &prefix);
+        if calls.is_empty() {
+            continue;
+        }
+        let (a, c) = calls[rng.below(calls.len())];
+        let k = rng.below(5);
+        let inner: Vec<usize> = (0..1 + rng.below(3)).map(|_| rng.below(1 << 20)).collect();
+        let post: Vec<usize> = (0..rng.below(3)).map(|_| rng.below(1 << 20)).collect();
+        let o = scenario_w::<P>(&param, &prefix, (a, c), k, &inner, &post, true);
+        emit(&o, &mut out, &mut st);
+    }
+    out.flush().unwrap();
+    eprintln!("INJECT prim={} scenarios={} violations={}", P::name(), st.scenarios, st.violations);
+}
+
+/// the calls possible after `prefix`, for every agent
+fn calls_after_all<P: Prim>(param: &str, prefix: &[(usize, String)]) -> Vec<(usize, &'static str)> {
+    record_atomics(true);
+    let p = P::new(param);
+    let addrs = p.addrs();
+    let run = Run { p, addrs, ev: RefCell::new(Vec::new()), viol: RefCell::new(None), depth: Cell::new(0) };
+    for (a, c) in prefix {
+        run.call(*a, c);
+    }
+    set_starvation_oracle(None);
+    let mut all = Vec::new();
+    for a in 0..P::agents() {
+        for c in run.p.calls(a) {
+            all.push((a, c));
+        }
+    }
+    all
+}
+
 fn replay<P: Prim>(param: &str, key: &str) {
     let key = key.strip_prefix("S:").unwrap_or(key);
     let parts: Vec<&str> = key.split(';').collect();
@@ -415,8 +506,10 @@ fn replay<P: Prim>(param: &str, key: &str) {
     let outer = pc(parts[1]);
     let k: usize = parts[2].parse().unwrap();
     let inner: Vec<usize> = parts.get(3).unwrap_or(&"").split(',').filter(|s| !s.is_empty()).map(|s| s.parse().unwrap()).collect();
-    let post: Option<usize> = parts.get(4).and_then(|s| s.parse().ok());
-    let o = scenario::<P>(param, &prefix, (outer.0, &outer.1), k, &inner, post);
+    let p4 = parts.get(4).copied().unwrap_or("");
+    let wrap = p4.ends_with('w');
+    let post: Vec<usize> = p4.trim_end_matches('w').split(',').filter(|s| !s.is_empty()).map(|s| s.parse().unwrap()).collect();
+    let o = scenario_w::<P>(param, &prefix, (outer.0, &outer.1), k, &inner, &post, wrap);
     println!("{}", o.line);
     if let Some(v) = o.viol {
         eprintln!("VIOLATION {}", v);
@@ -441,8 +534,10 @@ enum MSlot {
 
 /// `slots` (futures and guards borrowing the primitive) is declared, and therefore dropped, before
 /// the owner of the primitive.
-struct MutexP {
+struct MutexP<const N: usize> {
     slots: Vec<RefCell<MSlot>>,
+    /// the agent's pending future is Arc-flavoured (it owns a clone of the Arc)
+    arcfut: Vec<Cell<bool>>,
     grave: RefCell<Vec<BoxFut<MG>>>,
     wk: Wakers,
     keep: bool,
@@ -450,12 +545,12 @@ struct MutexP {
     _own: Owner<Arc<Mutex<usize>>>,
 }
 
-impl Prim for MutexP {
+impl<const N: usize> Prim for MutexP<N> {
     fn name() -> &'static str {
         "mutex"
     }
     fn agents() -> usize {
-        3
+        N
     }
     fn params() -> Vec<String> {
         vec!["fire=0,keep=0".into(), "fire=1,keep=0".into(), "fire=0,keep=1".into(), "fire=1,keep=1".into()]
@@ -464,7 +559,7 @@ impl Prim for MutexP {
         let fire = param.contains("fire=1");
         set_starvation_oracle(Some(Box::new(move || fire)));
         let (own, m) = Owner::new(Arc::new(Mutex::new(0)));
-        MutexP { grave: RefCell::new(Vec::new()), keep: param.contains("keep=1"), m, _own: own, slots: (0..Self::agents()).map(|_| RefCell::new(MSlot::Idle)).collect(), wk: Wakers::new(Self::agents()) }
+        MutexP { arcfut: (0..N).map(|_| Cell::new(false)).collect(), grave: RefCell::new(Vec::new()), keep: param.contains("keep=1"), m, _own: own, slots: (0..Self::agents()).map(|_| RefCell::new(MSlot::Idle)).collect(), wk: Wakers::new(Self::agents()) }
     }
     fn calls(&self, a: usize) -> Vec<&'static str> {
         match &*self.slots[a].borrow() {
@@ -488,6 +583,7 @@ impl Prim for MutexP {
             },
             (MSlot::Idle, "lock") | (MSlot::Idle, "lockArc") => {
                 let mut f: BoxFut<MG> = if call == "lock" { mapped(m.lock(), MG::B) } else { mapped(m.lock_arc(), MG::A) };
+                self.arcfut[a].set(call == "lockArc");
                 match self.wk.poll(a, &mut f) {
                     Poll::Ready(g) => (MSlot::Held(g, if self.keep { Some(f) } else { None }), "ready"),
                     Poll::Pending => (MSlot::Fut(f), "pending"),
@@ -522,10 +618,24 @@ impl Prim for MutexP {
     fn monitor(&self, _nested: bool) -> Option<String> {
         let held = self.slots.iter().filter(|s| matches!(&*s.borrow(), MSlot::Held(..))).count();
         if held > 1 {
-            Some(format!("[C01,C14] {} mutex guards alive at once", held))
-        } else {
-            None
+            return Some(format!("[C01,C14] {} mutex guards alive at once", held));
         }
+        if !_nested && !self.keep {
+            // C15: the strong count is the owner + owned guards + pending Arc-flavoured futures
+            let mut want = 1;
+            for (a, s) in self.slots.iter().enumerate() {
+                match &*s.borrow() {
+                    MSlot::Held(MG::A(_), _) => want += 1,
+                    MSlot::Fut(_) if self.arcfut[a].get() => want += 1,
+                    _ => {}
+                }
+            }
+            let got = Arc::strong_count(self.m);
+            if got != want {
+                return Some(format!("[C15] Arc strong count is {} with {} owners alive", got, want));
+            }
+        }
+        None
     }
     fn idle_probe(&self) -> Option<String> {
         // C14: nothing held, nothing pending: try_lock succeeds
@@ -564,6 +674,7 @@ enum SSlot {
 
 struct SemP {
     slots: Vec<RefCell<SSlot>>,
+    arcfut: Vec<Cell<bool>>,
     grave: RefCell<Vec<BoxFut<SG>>>,
     s: &'static Arc<Semaphore>,
     _own: Owner<Arc<Semaphore>>,
@@ -591,6 +702,7 @@ impl Prim for SemP {
         let n: usize = param.split(',').next().unwrap().parse().unwrap();
         let (own, s) = Owner::new(Arc::new(Semaphore::new(n)));
         SemP {
+            arcfut: (0..Self::agents()).map(|_| Cell::new(false)).collect(),
             grave: RefCell::new(Vec::new()),
             s,
             _own: own,
@@ -624,6 +736,7 @@ impl Prim for SemP {
             },
             (SSlot::Idle, "acquire") | (SSlot::Idle, "acquireArc") => {
                 let mut f: BoxFut<SG> = if call == "acquire" { mapped(s.acquire(), SG::B) } else { mapped(s.acquire_arc(), SG::A) };
+                self.arcfut[a].set(call == "acquireArc");
                 match self.wk.poll(a, &mut f) {
                     Poll::Ready(g) => (SSlot::Held(g, if self.keep { Some(f) } else { None }), "ready"),
                     Poll::Pending => (SSlot::Fut(f), "pending"),
@@ -674,6 +787,20 @@ impl Prim for SemP {
         let total = self.init + self.added.get();
         if held + self.forgotten.get() > total {
             return Some(format!("[C03,C14] {} permits out (held or forgotten) but only {} exist", held + self.forgotten.get(), total));
+        }
+        if !nested && !self.keep {
+            let mut want = 1;
+            for (a, s) in self.slots.iter().enumerate() {
+                match &*s.borrow() {
+                    SSlot::Held(SG::A(_), _) => want += 1,
+                    SSlot::Fut(_) if self.arcfut[a].get() => want += 1,
+                    _ => {}
+                }
+            }
+            let got = Arc::strong_count(self.s);
+            if got != want {
+                return Some(format!("[C15] Arc strong count is {} with {} owners alive", got, want));
+            }
         }
         if !nested {
             let count = self.s.__verif_snapshot().words[0];
@@ -737,6 +864,8 @@ enum RSlot {
 
 struct RwP {
     slots: Vec<RefCell<RSlot>>,
+    /// the agent's pending upgrade is an `UpgradeArc`
+    up_arc: Vec<Cell<bool>>,
     grave: RefCell<Kept>,
     wk: Wakers,
     keep: bool,
@@ -774,6 +903,7 @@ impl Prim for RwP {
         set_starvation_oracle(Some(Box::new(move || fire)));
         let (own, l) = Owner::new(Arc::new(RwLock::new(0)));
         RwP {
+            up_arc: (0..Self::agents()).map(|_| Cell::new(false)).collect(),
             grave: RefCell::new(Vec::new()),
             keep: param.contains("keep=1"),
             l,
@@ -849,8 +979,14 @@ impl Prim for RwP {
             (RSlot::Held(RG::W(g), k), "dgWU") => (RSlot::Held(RG::U(RwLockWriteGuard::downgrade_to_upgradable(g)), k), "ok"),
             (RSlot::Held(RG::WA(g), k), "dgWU") => (RSlot::Held(RG::UA(RwLockWriteGuardArc::downgrade_to_upgradable(g)), k), "ok"),
             // `upgrade()` itself performs the `fetch_sub`
-            (RSlot::Held(RG::U(g), k), "upgrade") => self.drive(a, mapped(RwLockUpgradableReadGuard::upgrade(g), RG::W), k, RSlot::FutUp),
-            (RSlot::Held(RG::UA(g), k), "upgrade") => self.drive(a, mapped(RwLockUpgradableReadGuardArc::upgrade(g), RG::WA), k, RSlot::FutUp),
+            (RSlot::Held(RG::U(g), k), "upgrade") => {
+                self.up_arc[a].set(false);
+                self.drive(a, mapped(RwLockUpgradableReadGuard::upgrade(g), RG::W), k, RSlot::FutUp)
+            }
+            (RSlot::Held(RG::UA(g), k), "upgrade") => {
+                self.up_arc[a].set(true);
+                self.drive(a, mapped(RwLockUpgradableReadGuardArc::upgrade(g), RG::WA), k, RSlot::FutUp)
+            }
             (RSlot::FutUp(f, k), "pollUp") => self.drive(a, f, k, RSlot::FutUp),
             (RSlot::FutUp(f, k), "cancelUp") => {
                 self.wk.forget(a);
@@ -878,12 +1014,27 @@ impl Prim for RwP {
             }
         }
         if w > 1 || (w == 1 && r + u > 0) {
-            Some(format!("[C02,C11,C14] write guard alive together with {} write, {} upgradable, {} read guards", w - 1, u, r))
+            return Some(format!("[C02,C11,C14] write guard alive together with {} write, {} upgradable, {} read guards", w - 1, u, r));
         } else if u > 1 {
-            Some(format!("[C02,C11,C14] {} upgradable guards alive at once", u))
-        } else {
-            None
+            return Some(format!("[C02,C11,C14] {} upgradable guards alive at once", u));
         }
+        if !_nested && !self.keep {
+            // C15: owner + owned guards + pending `UpgradeArc` futures (which own their guard's Arc);
+            // the other Arc-flavoured futures borrow the Arc until they complete
+            let mut want = 1;
+            for (a, s) in self.slots.iter().enumerate() {
+                match &*s.borrow() {
+                    RSlot::Held(RG::RA(_), _) | RSlot::Held(RG::UA(_), _) | RSlot::Held(RG::WA(_), _) => want += 1,
+                    RSlot::FutUp(..) if self.up_arc[a].get() => want += 1,
+                    _ => {}
+                }
+            }
+            let got = Arc::strong_count(self.l);
+            if got != want {
+                return Some(format!("[C15] Arc strong count is {} with {} owners alive", got, want));
+            }
+        }
+        None
     }
     fn final_probe(&self) -> Option<String> {
         // C12: a polled writer or upgrade is pending, no write or upgradable guard is alive, every
@@ -1224,11 +1375,26 @@ fn main() {
         Some("replay") => {
             let (prim, param, key) = (&args[2], &args[3], &args[4]);
             match prim.as_str() {
-                "mutex" => replay::<MutexP>(param, key),
+                "mutex" => replay::<MutexP<3>>(param, key),
+                "mutex5" => replay::<MutexP<5>>(param, key),
                 "sem" => replay::<SemP>(param, key),
                 "rwlock" => replay::<RwP>(param, key),
                 "once" => replay::<OnceP>(param, key),
                 "barrier" => replay::<BarrierP>(param, key),
+                _ => panic!("unknown primitive"),
+            }
+        }
+        Some("random") => {
+            // inject random <prim> <seed> <count> <maxdepth>
+            let (prim, seed, count, maxdepth): (&str, u64, usize, usize) =
+                (&args[2], args[3].parse().expect("seed"), args[4].parse().expect("count"), args[5].parse().expect("maxdepth"));
+            match prim {
+                "mutex" => run_random::<MutexP<3>>(seed, count, maxdepth),
+                "mutex5" => run_random::<MutexP<5>>(seed, count, maxdepth),
+                "sem" => run_random::<SemP>(seed, count, maxdepth),
+                "rwlock" => run_random::<RwP>(seed, count, maxdepth),
+                "once" => run_random::<OnceP>(seed, count, maxdepth),
+                "barrier" => run_random::<BarrierP>(seed, count, maxdepth),
                 _ => panic!("unknown primitive"),
             }
         }
@@ -1237,7 +1403,7 @@ fn main() {
             let inner: usize = args[3].parse().expect("inner");
             let post: usize = args.get(4).map(|s| s.parse().expect("post")).unwrap_or(0);
             match prim {
-                "mutex" => run_all::<MutexP>(depth, inner, post),
+                "mutex" => run_all::<MutexP<3>>(depth, inner, post),
                 "sem" => run_all::<SemP>(depth, inner, post),
                 "rwlock" => run_all::<RwP>(depth, inner, post),
                 "once" => run_all::<OnceP>(depth, inner, post),
